@@ -560,6 +560,9 @@ pub fn load_known() -> Vec<Known> {
 pub fn class_owners(class: &str) -> Option<&'static [&'static str]> {
     match class {
         "vsock-credit-overstated-after-rerequest" => Some(&["C17"]),
+        // how many receive buffers the console keeps posted, and when it posts them again, is
+        // C15's clause; the C07 batches that borrow the console scenario judge data and memory
+        "console-rx-outstanding" | "console-repost-early" => Some(&["C15"]),
         _ => None,
     }
 }
